@@ -11,7 +11,7 @@ import subprocess
 import time
 
 import common
-from common import BIN, BUILD, Verdict, GOENV
+from common import BIN, BUILD, Verdict, GOENV, REPO
 
 GENMOD = os.path.join(BUILD, "genmod")
 FLOW_MESSAGES = ["Logon", "Logout", "Heartbeat", "TestRequest", "ResendRequest", "SequenceReset", "Reject",
@@ -102,8 +102,8 @@ def run_gen(mode, seed, n, big=False):
     os.makedirs(GENMOD, exist_ok=True)
     with open(os.path.join(GENMOD, "go.mod"), "w") as f:
         f.write("module genmod\n\ngo 1.18\n\nrequire github.com/b2broker/simplefix-go v0.0.0\n\n"
-                "replace github.com/b2broker/simplefix-go => /repo\n")
-    shutil.copy("/repo/go.sum", os.path.join(GENMOD, "go.sum"))
+                "replace github.com/b2broker/simplefix-go => %s\n" % REPO)
+    shutil.copy(os.path.join(REPO, "go.sum"), os.path.join(GENMOD, "go.sum"))
     cmd = [os.path.join(BIN, "gen"), "-fixgen", os.path.join(BIN, "fixgen"), "-work", GENMOD, "-mode", mode,
            "-seed", str(seed), "-n", str(n)] + (["-big"] if big else [])
     p = subprocess.run(cmd, stdout=subprocess.PIPE, stderr=subprocess.PIPE, text=True, timeout=1800)
